@@ -499,8 +499,11 @@ pub fn c04(ctx: &Ctx) -> Report {
             run_m(ctx, &mut rep, ch, main_alphabet(2), &format!("channel {}, K=2", ch), p);
         }
     }
+    // complement without state matching: every operation sequence up to a depth (immune to an incomplete state key)
+    enumerate_sequences(&MidiM::new(0, Alphabet { notes: vec![5, 64], vels: vec![100], ..main_alphabet(4) }), if ctx.tier.is_thorough() { 6 } else { 5 }, ctx, &mut rep, p, "all message sequences, no state matching");
     if ctx.tier.is_thorough() {
         crate::sr::cross_check_midi(ctx, &mut rep, main_alphabet(4), &["C04"]);
+        key_selfcheck(MidiM::new(0, main_alphabet(3)), 300_000, &mut rep, "midi message machine");
     }
     let nt = ["release_of_non_last_note", "duplicate_note_on", "note_off_of_note_not_held", "all_notes_off_with_two_or_more_held", "priority_switched_while_notes_held"];
     rep.nontrivial = nt.iter().map(|k| rep.counters.get(*k).copied().unwrap_or(0)).sum();
@@ -523,11 +526,13 @@ pub fn c05(ctx: &Ctx) -> Report {
         run_m(ctx, &mut rep, 9, Alphabet { notes: vec![60, 61], vels: vec![64], ..polls(8) }, "2 notes, K=8, with polls", p);
         run_m(ctx, &mut rep, 15, Alphabet { notes: vec![60], vels: vec![100], ..polls(32) }, "1 note, K=32, with polls", p);
         crate::sr::cross_check_midi(ctx, &mut rep, polls(3), &["C05"]);
+        key_selfcheck(MidiM::new(0, polls(2)), 300_000, &mut rep, "midi message machine with polls");
     } else {
         run_m(ctx, &mut rep, 0, polls(3), "notes {5,64,127} x velocities {1,127}, K=3, with polls", p);
         run_m(ctx, &mut rep, 15, Alphabet { notes: vec![60], vels: vec![100], ..polls(8) }, "1 note, K=8, with polls", p);
         run_m(ctx, &mut rep, 4, Alphabet { notes: vec![60], vels: vec![100], edge_note: Some(40), modes: false, ..polls(32) }, "capacity K=32 with a second note as oldest / newest entry, with polls", p);
     }
+    enumerate_sequences(&MidiM::new(0, Alphabet { notes: vec![5, 64], vels: vec![100], modes: false, foreign: false, ..polls(4) }), if ctx.tier.is_thorough() { 7 } else { 6 }, ctx, &mut rep, p, "all message / poll sequences, no state matching");
     rep.nontrivial = rep.counters.get("rising_polls_expected_true").copied().unwrap_or(0) + rep.counters.get("falling_polls_expected_true").copied().unwrap_or(0);
     for k in ["rising_polls_expected_true", "falling_polls_expected_true", "gate_dropped_by_all_notes_off", "gate_dropped_by_note_off", "note_off_with_gate_low", "all_notes_off_with_pending_falling_edge"] {
         rep.require_nonzero(k);
@@ -835,6 +840,10 @@ pub fn c06(ctx: &Ctx) -> Report {
             rep.machinery("byte-level exploration ended without a fixpoint".into());
         }
     }
+    if thorough {
+        let alpha: Vec<u8> = vec![0x00, 0x3C, 0x7B, 0x90, 0x80, 0xB0, 0xE0, 0x91, 0xF0, 0xF7, 0xF8, 0xC0];
+        key_selfcheck(FrameM { t: Twin::new(0), alphabet: std::sync::Arc::new(alpha), max_held: 1 }, 200_000, &mut rep, "byte-level twin machine");
+    }
     // (ii) / (iii)
     let channels: Vec<u8> = (0..16).collect();
     let mut jobs: Vec<(u8, Vec<u8>, u8)> = Vec::new(); // (channel, base, k)
@@ -1024,7 +1033,10 @@ pub fn c18(ctx: &Ctx) -> Report {
     let a = Alphabet { notes: vec![60], vels: vec![100], k: 1, modes: false, polls: false, ccs, bends: if ctx.tier.is_thorough() { vec![0, 8191, 8192, 16383] } else { vec![0, 8192, 16383] }, foreign: true, edge_note: None };
     // fewer controllers in the quick tier keeps the product space small
     let a = if ctx.tier.is_thorough() { a } else { Alphabet { ccs: a.ccs.into_iter().filter(|(c, _)| matches!(c, 1 | 74 | 65 | 64 | 121 | 2 | 5)).collect(), ..a } };
-    run_m(ctx, &mut rep, 2, a, "controller / pitch-bend / reset / note histories", &["C18"]);
+    run_m(ctx, &mut rep, 2, a.clone(), "controller / pitch-bend / reset / note histories", &["C18"]);
+    // complement without state matching: all sequences of controller / bend / reset / note messages up to a depth
+    let small = Alphabet { ccs: vec![(1, 64), (1, 0), (74, 127), (65, 0), (64, 127), (121, 0), (5, 1), (7, 99), (71, 3), (2, 77), (120, 0)], bends: vec![0, 16383], foreign: false, ..a };
+    enumerate_sequences(&MidiM::new(2, small), if ctx.tier.is_thorough() { 5 } else { 4 }, ctx, &mut rep, &["C18"], "all controller message sequences, no state matching");
     rep.nontrivial = rep.counters.get("routed_controller_messages").copied().unwrap_or(0) + rep.counters.get("pitch_bend_messages").copied().unwrap_or(0);
     rep.require_nonzero("routed_controller_messages");
     rep.sample(json!({"script": {"machine": "midi", "config": {"channel": 2}, "ops": ["cc:74:127", "bend:16383", "cc:121:0"]}, "expected": "vcf_resonance 1.0, pitch_bend 1.0, then everything back to power-on defaults"}));
